@@ -7,6 +7,9 @@ def handle (fn : String) (args : List Json) : String :=
   | "_calc_checksum" => match args with
     | [a0] => (do let x0 ← Wire.decStr a0; pure (Wire.respondWith Wire.encInt (Gen.cz_bankaccount._calc_checksum x0)) : Option String).getD "badargs"
     | _ => "badargs"
+  | "_info" => match args with
+    | [a0] => (do let x0 ← Wire.decStr a0; pure (Wire.respondWith (Wire.encDict Wire.encStr Wire.encStr) (Gen.cz_bankaccount._info x0)) : Option String).getD "badargs"
+    | _ => "badargs"
   | "_split" => match args with
     | [a0] => (do let x0 ← Wire.decStr a0; pure (Wire.respondWith (Wire.encT3 (Wire.encOpt Wire.encStr) Wire.encStr Wire.encStr) (Gen.cz_bankaccount._split x0)) : Option String).getD "badargs"
     | _ => "badargs"
@@ -15,6 +18,15 @@ def handle (fn : String) (args : List Json) : String :=
     | _ => "badargs"
   | "format" => match args with
     | [a0] => (do let x0 ← Wire.decStr a0; pure (Wire.respondWith Wire.encStr (Gen.cz_bankaccount.format x0)) : Option String).getD "badargs"
+    | _ => "badargs"
+  | "info" => match args with
+    | [a0] => (do let x0 ← Wire.decStr a0; pure (Wire.respondWith (Wire.encDict Wire.encStr Wire.encStr) (Gen.cz_bankaccount.info x0)) : Option String).getD "badargs"
+    | _ => "badargs"
+  | "is_valid" => match args with
+    | [a0] => (do let x0 ← Wire.decStr a0; pure (Wire.respondWith Wire.encBool (Gen.cz_bankaccount.is_valid x0)) : Option String).getD "badargs"
+    | _ => "badargs"
+  | "validate" => match args with
+    | [a0] => (do let x0 ← Wire.decStr a0; pure (Wire.respondWith Wire.encStr (Gen.cz_bankaccount.validate x0)) : Option String).getD "badargs"
     | _ => "badargs"
   | _ => "nofunc"
 end Driver.D_cz_bankaccount
